@@ -1,7 +1,7 @@
 (** C05 - persist then load is the identity on the map.
     Statements only; proofs are in CodecRT.v / Reload.v. *)
 From Coq Require Import List NArith ZArith Bool.
-From Mast Require Import Prim Key Tree KeyOrder Codec CodecRT Store Diff World Erase Build Spec Canon Links Level Inv Persist Hist Reload.
+From Mast Require Import WorldInv Prim Key Tree KeyOrder Codec CodecRT Store Diff World Erase Build Spec Canon Links Level Inv Persist Hist Reload.
 Import ListNotations.
 
 (** the compact binary node format round-trips for arbitrary element bodies (keys, values: any
@@ -63,6 +63,24 @@ Example C05_example :
   nth 13%nat r ObOk = ObNum 4.
 Proof. vm_compute. repeat split; reflexivity. Qed.
 
+(** The root returned by MakeRoot stays loadable from every store that extends the resulting one
+    (other trees keep persisting into it), with the same contents, size, height and branch factor *)
+Theorem C05_root_stays_loadable : forall s s' kind bf (m : kmast) l t rt m',
+  kcanon bf m l -> root_allh s kind m -> list_ok kind l ->
+  make_root FBin m = (t, Ok (rt, m')) -> nocoll s t -> extends (apply_stores s t) s' ->
+  oks (load_mast s' kind rt) (fun r => fst r = FBin /\ kcanon bf (snd r) l /\ root_allh s' kind (snd r)).
+Proof.
+  intros s s' kind bf m l t rt m' C H Hl E Hn Hx.
+  exact (load_good s' kind bf l rt (good_root_mono _ s' kind bf l rt Hx (proj1 (make_root_good s kind bf m l t rt m' C H Hl E Hn)))).
+Qed.
+
+(** ... and inside histories with many trees and many stores: see C01_refines_sorted_map, whose
+    supported operations include MakeRoot and LoadMast of any captured root *)
+Theorem C05_in_histories : forall ops w a,
+  winv2 w a -> conds w a ops ->
+  map (fun x => pobs (fst x)) (run w ops) = arun2 a ops /\ winv2 (wrun w ops) (awrun2 a ops).
+Proof. exact history_refines2. Qed.
+
 (** PARTIAL: the v1marshaler (JSON) node format and the Root record's JSON form are modelled
     byte-exactly (Codec.v) and compared with the implementation on every run, but their round trip is
     not proved; caches are outside the model. *)
@@ -72,3 +90,5 @@ Print Assumptions C05_persist_then_load.
 Print Assumptions C05_cycles.
 Print Assumptions C05_insert_keeps_links.
 Print Assumptions C05_delete_keeps_links.
+Print Assumptions C05_root_stays_loadable.
+Print Assumptions C05_in_histories.
